@@ -96,6 +96,6 @@ pub fn shape_line(kind: Kind, cap_height: usize, input: &Value) -> Option<String
         Kind::UniFib => uni_line(if cap_height == 0 { "uni-fib" } else { "uni-fib-cap1" }, 2, 0, 0, input),
         // MulAir (this harness): width REPETITIONS, preprocessed width 2*REPETITIONS
         Kind::UniMul => uni_line("uni-mul", super::REPETITIONS, 2 * super::REPETITIONS, 1, input),
-        Kind::Batch => None,
+        Kind::Batch | Kind::GBatch => None,
     }
 }
